@@ -1,4 +1,4 @@
-import FpgoVerif.Model.C04Proto
+import FpgoVerif.Model.C04Judge
 /-! Executable model for property C04 (core-only): see `C04Spec` (element-level specification),
     `C04World` (storage-level model of stream.go / streamForInterface.go), `C04Proto` (programs, protocol). -/
 namespace FpgoVerif.C04
@@ -6,6 +6,7 @@ namespace FpgoVerif.C04
 /-- one protocol case line in, one canonical observation line out -/
 def handle (line : String) : String := runCase line
 
-def judge (_line _impl : String) : String := "violation model-and-implementation-disagree"
+/-- spec-level oracle on the observation of the real code (see `C04Judge`) -/
+def judge (line impl : String) : String := Judge.judgeCase line impl
 
 end FpgoVerif.C04
